@@ -458,6 +458,7 @@ def run(ctx):
             ctx.violation('history:%s' % ','.join(why), 'after an editing history the answers differ from a fresh process '
                           '(%s)' % why,
                           {'steps': [{'buffer': s['buffer'], 'slot': s['slot'], 'text': s['text']} for s in job['abstract'][:at]],
+                           'queries_of_last_step': job['steps'][at - 1]['queries'] if at - 1 < len(job['steps']) else None,
                            'differences': job.get('diffs', [])[:2]})
     if ident_notes:
         ctx.drift({'cache_entry_identity_differs_from_model_in_steps': ident_notes})
